@@ -767,6 +767,8 @@ def explore(run):
             # transition tour on one live object: every aliased property, and (quick) one plain property per class
             if alias or run.thorough() or attr in ("title", "stepstype", "credit"):
                 shards.append(("tour", okind, attr, std, alias, values))
+    # a chart whose other parameters exceed 8192 characters, note data present (two values keep the graph small)
+    shards.append(("prop", "SSCChart", "notes", "NOTES", "NOTES2", ("k" * 9000, "")))
     # an unrelated key that looks structural: a stored key NOTEDATA in an SSC chart is a key like any other
     shards.append(("prop", "SSCChart", "credit", "CREDIT", None, values, "NOTEDATA"))
     shards.append(("prop", "SSCChart", "notes", "NOTES", "NOTES2", ("p", ""), "NOTEDATA"))
